@@ -9,6 +9,105 @@ import (
 	"verifharness/internal/ringsim"
 )
 
+// leaveFailsLocallyAfterSuccessorGranted: L is the member with the largest id,
+// so its successor N0 has the smaller id and L asks N0 for the leave lock
+// before taking its own. While N0's grant is on its way back, a join request
+// reaches L and takes L's membership lock; the joiner's release is held, so L
+// is still locked when the grant arrives: the leave attempt fails at L itself,
+// after the successor has granted. The attempt "fails cleanly": both touched
+// nodes must return to serving (N0 must get its lock released), and all data
+// stays readable.
+func leaveFailsLocallyAfterSuccessorGranted() (problem string) {
+	const (
+		N0 = uint64(1) << 44
+		P  = uint64(2) << 44
+		J  = uint64(5) << 43
+		L  = uint64(3) << 44
+	)
+	r := newSimRing(ringsim.Config{Seed: 60})
+	defer r.net.Close()
+	if err := r.buildRing([]uint64{N0, P, L}, func(i int) int { return 0 }); err != nil {
+		return "precondition: " + err.Error()
+	}
+	if _, c := r.settle(60, true, nil); c.Problem != "" {
+		return "precondition: " + c.Problem
+	}
+	r.fillLists(20)
+	ctx := context.Background()
+	want := map[string]string{}
+	for i := 0; i < 30; i++ {
+		k, v := fmt.Sprintf("granted-%d", i), fmt.Sprintf("v%d", i)
+		if err := retryKV(func() error { return r.members[P].Node.Put(ctx, []byte(k), []byte(v)) }); err != nil {
+			return "precondition: put: " + err.Error()
+		}
+		want[k] = v
+	}
+	grant := r.net.AddGate(&ringsim.Gate{Method: "RequestToLeave", Caller: L, Callee: N0, Nth: 1, After: true})
+	leaveDone := make(chan struct{})
+	go func() { r.members[L].Node.Leave(); close(leaveDone) }()
+	select {
+	case <-grant.Reached():
+	case <-leaveDone:
+		grant.Release()
+		return "precondition: leave ended without asking the successor"
+	case <-time.After(10 * time.Second):
+		grant.Release()
+		return "precondition: leave request not reached"
+	}
+	release := r.net.AddGate(&ringsim.Gate{Method: "FinishJoin", Arg: "release", Caller: J, Callee: L, Nth: 1})
+	joined := make(chan error, 1)
+	go func() { _, err := r.join(J, L); joined <- err }()
+	select {
+	case <-release.Reached():
+	case err := <-joined:
+		grant.Release()
+		release.Release()
+		<-leaveDone
+		return fmt.Sprintf("precondition: join ended before releasing the lock: %v", err)
+	case <-time.After(10 * time.Second):
+		grant.Release()
+		release.Release()
+		return "precondition: join did not get the lock of the leaving node"
+	}
+	if st := r.members[L].Node.VerifState(); st != chord.Transferring {
+		grant.Release()
+		release.Release()
+		<-leaveDone
+		<-joined
+		return "precondition: leaving node is " + st.String() + ", not locked by the join"
+	}
+	grant.Release() // the successor's grant arrives at a node that is locked by the join
+	select {
+	case <-leaveDone:
+	case <-time.After(500 * time.Millisecond):
+	}
+	release.Release()
+	if err := <-joined; err != nil {
+		return "precondition: join failed: " + err.Error()
+	}
+	select {
+	case <-leaveDone:
+	case <-time.After(60 * time.Second):
+		return "Leave() did not return"
+	}
+	if _, c := r.settle(80, false, nil, true); c.Problem != "" {
+		if problemClass(c.Problem) == "state-not-active" {
+			return fmt.Sprintf("after a leave attempt of %d that its successor %d had granted but that failed at %d itself (locked by a join): %s", L, N0, L, c.Problem)
+		}
+		return "precondition: not converged after the schedule: " + c.Problem
+	}
+	for _, m := range r.live() {
+		for k, v := range want {
+			var got []byte
+			err := retryKV(func() (e error) { got, e = m.Node.Get(ctx, []byte(k)); return })
+			if err != nil || string(got) != v {
+				return fmt.Sprintf("Get(%q) via %d = %q, %v; want %q (members %v)", k, m.ID, got, err, v, liveIDs(r.live()))
+			}
+		}
+	}
+	return ""
+}
+
 // refusedJoinLeavesNodeServing: a join racing the graceful leave of the
 // successor's predecessor. L leaves; S notices (predecessor check) that L is
 // gone and has no predecessor until P's next stabilize notifies it; J's join
